@@ -14,12 +14,17 @@ INF = float("inf")
 def gen_case(rng, variant):
     k = rng.choice(KS)
     npool = rng.choice([1, 2, k, k + 1, 2 * k, 3 * k + 2])
-    style = rng.choice(["ties", "ties", "real", "sorted", "rsorted"])
+    style = rng.choice(["ties", "ties", "real", "sorted", "rsorted", "signed", "negative"])
     if style == "ties":
         vals = [0.0, -0.0, 0.5, 1.0, 1.0, 2.0, 3.0, 3.0, INF, 7.25]
         d = [rng.choice(vals) for _ in range(npool)]
     elif style == "real":
         d = [rng.random() * 10 for _ in range(npool)]
+    elif style == "signed":
+        # distances need not be non-negative (dot / negated inner products as a callable metric)
+        d = [rng.choice([-1.0, 1.0]) * rng.random() * 50 for _ in range(npool)]
+    elif style == "negative":
+        d = [-1.0 - rng.random() * 49 for _ in range(npool)]
     elif style == "sorted":
         d = [float(i) for i in range(npool)]
     else:
@@ -171,7 +176,7 @@ def run(res, tier, seed, search):
     n = 400 if tier == "quick" else 4000
     if search:
         n *= 3
-    res.rule = ("random offer sequences per push variant (k in %s; tie-heavy / real / sorted priorities incl. inf, -0.0; "
+    res.rule = ("random offer sequences per push variant (k in %s; tie-heavy / real / sorted / signed / all-below-minus-one priorities incl. inf, -0.0; "
                 "repeated candidates); non-trivial = >=1 eviction of a real entry, >=1 far rejection and "
                 "(checked variants) >=1 duplicate rejection; distinct = hash of (variant,k,d,offers)" % KS)
     corpus = os.path.join(VERIF, "corpus", "C11.jsonl")
